@@ -123,6 +123,24 @@ def parse_output(text):
     return out
 
 
+def canon_lines(lines):
+    """within one operation the implementation interleaves diagnostics (G) and callback lines (T) as they
+    happen while the model lists diagnostics first: order each run of G/T lines as all G, then all T"""
+    out = []
+    run = []
+    for l in lines:
+        if l.startswith("G ") or l.startswith("T "):
+            run.append(l)
+        else:
+            if run:
+                out += [x for x in run if x.startswith("G ")] + [x for x in run if x.startswith("T ")]
+                run = []
+            out.append(l)
+    if run:
+        out += [x for x in run if x.startswith("G ")] + [x for x in run if x.startswith("T ")]
+    return out
+
+
 def run_driver(cmd, cases, wd, tag, env=None, timeout=3600):
     """Run a driver over the cases in parallel chunks; returns {cid: [lines]}."""
     chunks = _split(cases, NPROC)
@@ -149,7 +167,7 @@ def run_driver(cmd, cases, wd, tag, env=None, timeout=3600):
         fi.close()
         fo.close()
         with open(outp, errors="replace") as f:
-            res.update(parse_output(f.read()))
+            res.update({k: canon_lines(v) for k, v in parse_output(f.read()).items()})
     return res
 
 
